@@ -450,14 +450,14 @@ def sweep_jobs(tier, props, algos=("mgm",)):
     doms = {"v0": [0, 1], "v1": [0, 1], "v2": [0, 1]}
     for algo in algos:
         # MGM2 expands two random answers per computation and cycle: about 14 000 states (10 s) per sweep run (measured), so its
-        # sweep (thorough only) takes the quick menus for c01 / the unary constraint and two schedules: 1944 runs, about 20 min on 16 cores
+        # sweep (thorough only) takes the quick menu for c01, one unary constraint and one schedule: 486 runs, about 1.4 core-hours
         heavy = algo == "mgm2"
         for a in (c01_menu if not heavy else [[[0, 0], [0, 0]], B[2], B[0]]):
             for b in c12_all:
-                for u in (unary if not heavy else [[3, 0], [1, 2]]):
+                for u in (unary if not heavy else [[1, 2]]):
                     for mode in ("min", "max"):
                         spec = _spec(["v0", "v1", "v2"], doms, _cons([("v0", "v1"), ("v1", "v2"), ("v2",)], [a, b, u]), mode)
-                        for sched in (SWEEP_SCHEDULES if not heavy else ("first", "last")):
+                        for sched in (SWEEP_SCHEDULES if not heavy else ("last",)):
                             out.append({"spec": spec, "algo": algo, "params": {"stop_cycle": 4 if algo == "mgm" else 3}, "props": list(props),
                                         "unit_menu": (0.5,) if algo == "mgm" else (0.0, 0.999999), "schedule": sched, "label": "sweep"})
     return out
